@@ -33,7 +33,7 @@ Fixpoint search_loop (fuel : nat) (bw : N) (offsets : list N) (len last num new 
       | O => None
       | S f => search_loop f bw offsets len last new (2 * new)
       end
-    else Some (last + new).
+    else Some (last + num).   (* the last window that fitted (repo commit b9f1526) *)
 
 Definition search_next_offset_idx (bw : N) (offsets : list N) (last : N) : option N :=
   search_loop 64 bw offsets (nlen offsets) last 1 2.
@@ -84,15 +84,15 @@ Definition binary_encode (bw : N) (offsets data : list N) : option (list (list N
   | None => None
   end.
 
-(* Known finding (KNOWN_FINDINGS.txt, class Known_C26_binary_doubling_overshoot): inputs on which
-   the chunking rule emits a chunk above MAX_MINIBLOCK_BYTES, or whose recorded u16 sizes no longer
-   add up to the buffer (the `as u16` cast truncated a chunk above 65535 bytes). *)
-Definition Known_C26_binary_doubling_overshoot (i : N * list N * list N) : bool :=
+(* the chunk table describes the buffer: no chunk above MAX_MINIBLOCK_BYTES and the recorded u16
+   sizes add up to the buffer (regression check of the defect repaired in repo commit b9f1526,
+   where the chunker returned the doubled window that had NOT fitted) *)
+Definition binary_table_ok (i : N * list N * list N) : bool :=
   let '(bw, offsets, data) := i in
   match binary_encode bw offsets data with
   | Some ([buf], chunks) =>
-      existsb (fun c : chunk => MAX_MINIBLOCK_BYTES <? sum_N (fst c)) chunks
-      || negb (sum_N (map (fun c : chunk => sum_N (fst c)) chunks) =? nlen buf)
+      forallb (fun c : chunk => sum_N (fst c) <=? MAX_MINIBLOCK_BYTES) chunks
+      && (sum_N (map (fun c : chunk => sum_N (fst c)) chunks) =? nlen buf)
   | _ => false
   end.
 
